@@ -68,6 +68,7 @@ RUNTIME_PATCH_TAIL = r'''
 // iteration offsets, and seeds a process-global cheaprand stream (select case order).
 var verifMapRand uint64
 var verifCheap uint64
+var verifStream uint64
 
 func init() {
 	s := gogetenv("VERIF_MAPRAND")
@@ -87,6 +88,7 @@ func init() {
 	}
 	verifMapRand = v
 	verifCheap = v
+	verifStream = v
 	key := (*[hashRandomBytes / 8]uint64)(unsafe.Pointer(&aeskeysched))
 	for i := range key {
 		key[i] = 0x9e3779b97f4a7c15 * uint64(i+1)
@@ -97,7 +99,7 @@ func init() {
 }
 
 // VerifSetMapRand switches the constant used for map seeds / iteration offsets (0 = runtime default).
-func VerifSetMapRand(v uint64) { verifMapRand = v; verifCheap = v }
+func VerifSetMapRand(v uint64) { verifMapRand = v; verifCheap = v; verifStream = v }
 
 // VerifMapRand returns the constant in force.
 func VerifMapRand() uint64 { return verifMapRand }
@@ -112,7 +114,8 @@ def gen_runtime_rand():
     a = "func rand32() uint32 {\n\treturn uint32(rand())\n}"
     b = "func maps_rand() uint64 {\n\treturn rand()\n}"
     c = "func cheaprand() uint32 {\n\tmp := getg().m\n"
-    for anchor in (a, b, c):
+    d = "func rand() uint64 {\n"
+    for anchor in (a, b, c, d):
         if src.count(anchor) != 1:
             raise SystemExit("runtime/rand.go: anchor not found: " + anchor[:30])
     src = src.replace(a, "func rand32() uint32 {\n\tif verifMapRand != 0 {\n\t\treturn uint32(verifMapRand)\n\t}\n\treturn uint32(rand())\n}")
@@ -121,6 +124,15 @@ def gen_runtime_rand():
         c,
         "func cheaprand() uint32 {\n\tif verifMapRand != 0 {\n\t\tverifCheap += 0xa0761d6478bd642f\n"
         "\t\thi, lo := math.Mul64(verifCheap, verifCheap^0xe7037ed1a0b428db)\n\t\treturn uint32(hi ^ lo)\n\t}\n\tmp := getg().m\n",
+    )
+    # runtime.rand itself: compiler-generated code seeds non-escaping (stack allocated) maps with it,
+    # math/rand/v2's top-level functions draw from it. Under the seam it is a deterministic splitmix64
+    # stream (not a constant: rejection-sampling callers must see varying values).
+    src = src.replace(
+        d,
+        "func rand() uint64 {\n\tif verifMapRand != 0 {\n\t\tverifStream += 0x9e3779b97f4a7c15\n\t\tz := verifStream\n"
+        "\t\tz = (z ^ (z >> 30)) * 0xbf58476d1ce4e5b9\n\t\tz = (z ^ (z >> 27)) * 0x94d049bb133111eb\n\t\treturn z ^ (z >> 31)\n\t}\n",
+        1,
     )
     return src + RUNTIME_PATCH_TAIL
 
